@@ -4,6 +4,7 @@ import (
 	"context"
 	"fmt"
 	"strings"
+	"sync"
 
 	"github.com/a-h/templ"
 	"verif/harness/tmpl"
@@ -42,6 +43,8 @@ func runC04(e *emitter, tier string, seed uint64) {
 		c04Emit(e, v)
 	}
 	c04Typing(e, seed, tier)
+	c04Docs(e)
+	c04Concurrent(e, tier)
 	// the other route by which a dynamic value reaches href / action: spread attributes
 	for _, v := range xssVectors {
 		for _, el := range []string{"a", "form"} {
@@ -192,4 +195,78 @@ func c04Typing(e *emitter, seed uint64, tier string) {
 			}
 		}
 	}
+}
+
+// c04Docs: end to end - the sanitised URL in <a href={ }> and <form action={ }> of a generated template, as the HTML
+// tokenizer reads the attribute back: exactly what templ.URL returned, whatever characters stand next to each other.
+func c04Docs(e *emitter) {
+	specials := []string{"&", "\"", "'", "<", ">", "a", ";", "#"}
+	var vals []string
+	for _, a := range specials {
+		for _, b := range specials {
+			vals = append(vals, "/x?q="+a+b+"z", a+b, "/p"+a+b+a)
+			for _, c := range specials[:5] {
+				vals = append(vals, "/"+a+b+c)
+			}
+		}
+	}
+	vals = append(vals, "/x?&\" onmouseover=alert(1) x", "/x?q=&&colon;", "/a?b=1&amp;c=2", "/a?b=1&c=2&copy=3", "javascript&colon;alert(1)", "/x?a='\"><script>")
+	for _, v := range append(vals, xssVectors...) {
+		for _, el := range []string{"a", "form"} {
+			key := "hrefdoc " + el + " " + v
+			if !e.mine(key) {
+				continue
+			}
+			u := templ.URL(v)
+			var sb strings.Builder
+			if el == "a" {
+				_ = tmpl.HrefSink(u).Render(context.Background(), &sb)
+			} else {
+				_ = tmpl.ActionSink(u).Render(context.Background(), &sb)
+			}
+			e.emit(key, "hrefdoc", el, hx(v), hx(string(u)), hx(sb.String()))
+		}
+	}
+}
+
+// c04Concurrent: templ.URL called from many goroutines at once, half of them with allowed and half with disallowed
+// schemes of the same lengths: every call gets the answer it gets when called alone.
+func c04Concurrent(e *emitter, tier string) {
+	if !e.mine("urlpar") {
+		return
+	}
+	inputs := []string{"http://h/a", "data:text/html,x", "https://h/a", "blob:https://h/x", "file:///etc/passwd", "mailto:a@b", "tel:+1", "sms:+1", "irc:x", "ftp://h", "ftps://h", "about:blank", "gopher://h", "/rel", "javascript:alert(1)", "HTTP://H", "DATA:x", "Sms:1", "Tel:1"}
+	alone := map[string]string{}
+	for _, in := range inputs {
+		alone[in] = string(templ.URL(in))
+	}
+	rounds := 20000
+	if tier == "thorough" {
+		rounds = 200000
+	}
+	var mu sync.Mutex
+	wrong := map[string]string{}
+	var wg sync.WaitGroup
+	for g := 0; g < 16; g++ {
+		wg.Add(1)
+		go func(g int) {
+			defer wg.Done()
+			for i := 0; i < rounds; i++ {
+				in := inputs[(i*7+g*3)%len(inputs)]
+				if out := string(templ.URL(in)); out != alone[in] {
+					mu.Lock()
+					wrong[in] = out
+					mu.Unlock()
+				}
+			}
+		}(g)
+	}
+	wg.Wait()
+	first, firstOut := "", ""
+	for in, out := range wrong {
+		if first == "" || in < first {
+			first, firstOut = in, out
+		}
+	}
+	e.emit("urlpar", "urlpar", fmt.Sprint(len(wrong)), hx(first), hx(alone[first]), hx(firstOut))
 }
